@@ -60,12 +60,14 @@ def queries(tier):
     for L in ([1] if quick else [1, 2]):
         qs.append(Q('split_laws_exact_len%d' % L, 'X128', 'h_split.c', {'LEN': L, 'MODE': 0}, L + 2, 'as split_laws, exact encoding (CBMC malloc, inlined libstdc++, no string-length cut)',
                     'len(s) == %d' % L, backend='cadical', mem_gb=10))
-    for L in ([0, 1, 2, 3] if quick else [0, 1, 2, 3, 4]):
+    for L in ([0, 1, 2] if quick else [0, 1, 2, 3, 4]):
         for mode in (0, 1):
+            if mode == 1 and L == 4:
+                continue
             qs.append(Q('splitctx_%s_len%d' % (('ref', 'join')[mode], L), 'R', 'h_splitctx.c', {'LEN': L, 'MODE': mode}, L + 2,
                         'split_context on %d symbolic bytes, symbolic delimiter and max_splits vs reference bracket/quote scanner: ' % L + ('exact pieces / runtime_error iff unbalanced' if mode == 0 else 'phosg join inverts it when accepted'),
                         'len(s) == %d, all byte values, all delimiters, max_splits in [0,%d]' % (L, L + 1)))
-    for L in ([0, 1, 2, 3] if quick else [0, 1, 2, 3, 4, 5]):
+    for L in ([0, 1, 2] if quick else [0, 1, 2, 3, 4]):
         qs.append(Q('splitargs_len%d' % L, 'R', 'h_splitargs.c', {'LEN': L}, L + 2,
                     'split_args on %d symbolic bytes vs reference shell-style tokenizer: exact arguments / runtime_error iff incomplete escape or open quote' % L, 'len(s) == %d, all byte values' % L))
     names = ['trailing_zeroes', 'trailing_ws', 'leading_ws', 'ws', 'comments']
